@@ -1,6 +1,16 @@
 import Mathlib.Data.List.Perm.Basic
 import Mathlib.Data.List.Induction
 import TenpyModel.C10.GraphProofs
+/-!
+# C10: the imperative graph construction `Graph.fromTerms` (finite chain, onsite + coupling terms)
+produces, site by site, a permutation of the closed form `GraphSpec.specLayers`
+
+`Rep L g S` : the graph `g` has `L` layers and layer `k` is a permutation of `S k`.  Every stage of
+the construction (`Graph.add`, the onsite loop, `add_string_left_to_right`, one block of the coupling
+dictionary, all blocks, `add_missing_IdL_IdR`) is described by how it transforms `S`.
+
+Main results: `fromTerms_layers_perm`, `pathsFrom_equiv_of_forall2`, `denoteGraph_fromTerms_equiv`.
+-/
 
 namespace TenpyModel.Ops
 
@@ -250,7 +260,6 @@ theorem rep_stringFold {L : Nat} (i : Int) (h0 : 0 ≤ i) (lab : Key) (str : Str
     · rw [s2 (hiff.2 hc)]
       refine ih2.congr_eq ?_
       intro k _
-      beta_reduce
       congr 1
       apply if_congr _ rfl rfl
       push_cast
@@ -374,7 +383,6 @@ theorem rep_d2 {L : Nat} (i : Int) (h0 : 0 ≤ i) (lab : Key) (hlab : lab ≠ Ke
       (fun p' hp' => hv p' (List.mem_cons_of_mem _ hp')) hT2
     refine hres.congr ?_
     intro k _
-    beta_reduce
     have hkeys : Dict.keys (p :: d2) = p.1 :: Dict.keys d2 := rfl
     rw [hkeys, List.foldl_cons, List.flatMap_cons]
     have hM : max m p.1 ≤ (Dict.keys d2).foldl max (max m p.1) := foldl_max_ge' _ _
@@ -412,7 +420,9 @@ theorem rep_d2 {L : Nat} (i : Int) (h0 : 0 ≤ i) (lab : Key) (hlab : lab ≠ Ke
 def blockStep (g : Graph α) (b : Block α) : Graph α :=
   b.d2.foldl (d2Step b.i b.label b.str) (g.add b.i Key.IdL b.label b.opi 1 true)
 
+omit [One α] in
 theorem label_ne_IdL' (b : Block α) : b.label ≠ Key.IdL := by simp [Block.label, leftLabel, Key.IdL]
+omit [One α] in
 theorem label_ne_IdR' (b : Block α) : b.label ≠ Key.IdR := by simp [Block.label, leftLabel, Key.IdR]
 
 theorem rep_block {L : Nat} (b : Block α) (h0 : 0 ≤ b.i) (h1 : b.i < (L : Int))
@@ -438,7 +448,6 @@ theorem rep_block {L : Nat} (b : Block α) (h0 : 0 ≤ b.i) (h1 : b.i < (L : Int
   refine this.congr_eq ?_
   intro k _
   unfold upd Block.edgesAt Block.jmax dictEdges strEdge
-  beta_reduce
   have c1 : (b.i + 1 ≤ (k : Int) ∧ (k : Int) < (Dict.keys b.d2).foldl max (b.i + 1)) ↔
       (b.i < (k : Int) ∧ (k : Int) < (Dict.keys b.d2).foldl max (b.i + 1)) := by
     constructor
@@ -540,10 +549,12 @@ theorem rep_blocks {L : Nat} (bs : List (Block α)) :
     intro k _
     simp only [List.flatMap_cons, List.append_assoc]
 
+omit [One α] in
 theorem label_inj' (b b' : Block α) (h : b.label = b'.label) :
     b.i = b'.i ∧ b.opi = b'.opi ∧ b.str = b'.str := by
   simpa [Block.label, leftLabel] using h
 
+omit [One α] in
 theorem blocks_of_WFP (ct : CouplingTerms α) (L : Nat)
     (hct : ct.WFP (fun i j => 0 ≤ i ∧ i < j ∧ j < (L : Int))) :
     ct.blocks.Pairwise (fun b b' => b.label ≠ b'.label) ∧
@@ -591,5 +602,173 @@ theorem rep_coupling {L : Nat} (ct : CouplingTerms α)
   exact (rep_blocks ct.blocks g S h hpw hv hfresh).bump _
 
 end blocks
+
+/-! ## `add_missing_IdL_IdR` -/
+section ident
+variable {α : Type} [One α]
+
+def idStep (kk : Key) (g : Graph α) (k : Nat) : Graph α :=
+  if g.hasEdge k kk kk then g else g.add k kk kk "Id" 1
+
+theorem idStep_neg (kk : Key) (g : Graph α) (k : Nat) (h : ¬ (g.hasEdge k kk kk = true)) :
+    idStep kk g k = g.add k kk kk "Id" 1 := by
+  unfold idStep
+  rw [if_neg h]
+
+theorem addMissing_eq (g : Graph α) :
+    g.addMissingIdLIdR true =
+      (List.range g.L).foldl (idStep Key.IdR) ((List.range g.L).foldl (idStep Key.IdL) g) := by
+  unfold Graph.addMissingIdLIdR
+  simp only [Bool.or_true, if_true, Nat.sub_zero, Nat.add_zero, List.map_id']
+  rfl
+
+theorem rep_idFold {L : Nat} (kk : Key) (g : Graph α) (S : Nat → List (Edge Key α)) (h : Rep L g S)
+    (hS : ∀ k, k < L → ∀ e ∈ S k, ¬ (e.kL = kk ∧ e.kR = kk)) :
+    ∀ n, n ≤ L → Rep L ((List.range n).foldl (idStep kk) g)
+      (fun k => S k ++ if k < n then [⟨kk, kk, "Id", 1⟩] else []) := by
+  intro n
+  induction n with
+  | zero =>
+    intro _
+    exact h.congr_eq (fun k _ => by simp)
+  | succ n ih =>
+    intro hn
+    have ih' := ih (by omega)
+    rw [List.range_succ, List.foldl_append]
+    simp only [List.foldl_cons, List.foldl_nil]
+    have hno : ¬ ∃ e ∈ (S n ++ if n < n then [(⟨kk, kk, "Id", 1⟩ : Edge Key α)] else []), e.kL = kk ∧ e.kR = kk := by
+      rw [if_neg (lt_irrefl n), List.append_nil]
+      rintro ⟨e, he, hc⟩
+      exact hS n (by omega) e he hc
+    have hne : ¬ (((List.range n).foldl (idStep kk) g).hasEdge n kk kk = true) :=
+      fun hc => hno ((hasEdge_iff ih' n (by omega) kk kk).1 hc)
+    rw [idStep_neg kk _ n hne]
+    have ha := ih'.add (n : Int) (by omega) (by omega) kk kk "Id" 1 false (Or.inl rfl)
+    refine ha.congr_eq ?_
+    intro k _
+    unfold upd
+    rw [Int.toNat_natCast]
+    beta_reduce
+    by_cases e : k = n
+    · rw [if_pos e, if_neg (by omega), if_pos (by omega), List.append_nil]
+    · rw [if_neg e]
+      congr 1
+      apply if_congr _ rfl rfl
+      omega
+
+end ident
+
+/-! ## the theorem -/
+section final
+variable {α : Type} [One α]
+
+theorem forall2_specFrom (ot : OnsiteTerms α) (ct : CouplingTerms α) :
+    ∀ (n k : Nat) (l : List (List (Edge Key α))), l.length = n →
+      (∀ j, j < n → (l.getD j []).Perm (specLayer ot ct (k + j))) →
+      List.Forall₂ List.Perm l (specFrom ot ct k n) := by
+  intro n
+  induction n with
+  | zero =>
+    intro k l hl _
+    rw [List.length_eq_zero_iff] at hl
+    subst hl
+    exact List.Forall₂.nil
+  | succ n ih =>
+    intro k l hl h
+    cases l with
+    | nil => simp at hl
+    | cons x l =>
+      show List.Forall₂ List.Perm (x :: l) (specLayer ot ct k :: specFrom ot ct (k + 1) n)
+      refine List.Forall₂.cons ?_ (ih (k + 1) l (by simpa using hl) ?_)
+      · have := h 0 (by omega)
+        simpa using this
+      · intro j hj
+        have := h (j + 1) (by omega)
+        rw [show k + (j + 1) = k + 1 + j by omega] at this
+        simpa using this
+
+theorem fromTerms_layers_perm [Inhabited α] (ot : OnsiteTerms α) (ct : CouplingTerms α) (L : Nat)
+    (hot : ot.terms.length = L)
+    (hct : ct.WFP (fun i j => 0 ≤ i ∧ i < j ∧ j < (L : Int))) :
+    List.Forall₂ List.Perm (Graph.fromTerms L false [.onsite ot, .coupling ct]).layers (specLayers ot ct L) := by
+  have e0 : Graph.fromTerms L false [.onsite ot, .coupling ct] =
+      (ct.addToGraph (ot.addToGraph (Graph.empty L false))).addMissingIdLIdR true := rfl
+  rw [e0]
+  have r1 := rep_onsite ot hot _ _ (Rep.empty (α := α) L false)
+  have r2 := rep_coupling ct hct _ _ r1 (by
+    intro b _ k _ e he
+    rw [List.nil_append] at he
+    unfold onsiteEdges dictEdges at he
+    obtain ⟨q, _, rfl⟩ := List.mem_map.1 he
+    exact (label_ne_IdR' b).symm)
+  rw [addMissing_eq, r2.1]
+  have r3 := rep_idFold Key.IdL _ _ r2 (by
+    intro k _ e he hc
+    rcases List.mem_append.1 he with he | he
+    · rw [List.nil_append] at he
+      unfold onsiteEdges dictEdges at he
+      obtain ⟨q, _, rfl⟩ := List.mem_map.1 he
+      exact absurd hc.2 (by simp [Key.IdL, Key.IdR])
+    · obtain ⟨b, _, hb⟩ := List.mem_flatMap.1 he
+      rcases mem_edgesAt_kR b k e hb with hr | hr
+      · exact label_ne_IdL' b (hr.symm.trans hc.2)
+      · exact absurd (hr.symm.trans hc.2) (by simp [Key.IdL, Key.IdR])) L (le_refl _)
+  have r4 := rep_idFold Key.IdR _ _ r3 (by
+    intro k _ e he hc
+    rcases List.mem_append.1 he with he | he
+    · rcases List.mem_append.1 he with he | he
+      · rw [List.nil_append] at he
+        unfold onsiteEdges dictEdges at he
+        obtain ⟨q, _, rfl⟩ := List.mem_map.1 he
+        exact absurd hc.1 (by simp [Key.IdL, Key.IdR])
+      · obtain ⟨b, _, hb⟩ := List.mem_flatMap.1 he
+        rcases mem_edgesAt_kL b k e hb with hr | hr
+        · exact label_ne_IdR' b (hr.symm.trans hc.1)
+        · exact absurd (hr.symm.trans hc.1) (by simp [Key.IdL, Key.IdR])
+    · by_cases c : k < L
+      · rw [if_pos c, List.mem_singleton] at he
+        subst he
+        exact absurd hc.1 (by simp [Key.IdL, Key.IdR])
+      · rw [if_neg c] at he
+        simp at he) L (le_refl _)
+  unfold specLayers
+  apply forall2_specFrom ot ct L 0 _ r4.2.1
+  intro j hj
+  rw [Nat.zero_add]
+  refine (r4.2.2 j hj).trans (List.Perm.of_eq ?_)
+  beta_reduce
+  simp only [if_pos hj]
+  unfold specLayer onsiteEdges dictEdges
+  simp only [List.nil_append, List.append_assoc, List.cons_append]
+
+end final
+
+section corollary
+variable {α : Type} [Semiring α]
+
+/-- path sums only depend on the multisets of edges of the layers -/
+theorem pathsFrom_equiv_of_forall2 {κ : Type} [DecidableEq κ] (fin : κ) {l1 l2 : List (List (Edge κ α))}
+    (h : List.Forall₂ List.Perm l1 l2) :
+    ∀ k, Sym.Equiv (pathsFrom fin l1 k) (pathsFrom fin l2 k) := by
+  induction h with
+  | nil => intro k; exact Sym.Equiv.refl _
+  | cons hp _ ih =>
+    intro k
+    refine (Sym.Equiv.of_perm (pathsFrom_perm_layer fin hp _ k)).trans ?_
+    rw [pathsFrom_cons, pathsFrom_cons]
+    apply Sym.Equiv.flatMap_congr
+    intro e _
+    split
+    · exact Sym.Equiv.consOp _ _ (ih _)
+    · exact Sym.Equiv.refl _
+
+theorem denoteGraph_fromTerms_equiv [Inhabited α] (ot : OnsiteTerms α) (ct : CouplingTerms α) (L : Nat)
+    (hot : ot.terms.length = L) (hct : ct.WFP (fun i j => 0 ≤ i ∧ i < j ∧ j < (L : Int))) :
+    Sym.Equiv (denoteGraph (Graph.fromTerms L false [.onsite ot, .coupling ct]))
+      (pathsFrom Key.IdR (specLayers ot ct L) Key.IdL) := by
+  unfold denoteGraph
+  exact pathsFrom_equiv_of_forall2 Key.IdR (fromTerms_layers_perm ot ct L hot hct) Key.IdL
+
+end corollary
 
 end TenpyModel.Ops
